@@ -1421,6 +1421,10 @@ class Process(StateMachine, persistence.Savable, metaclass=ProcessStateMachineMe
 
         while self.paused and self._paused is not None:
             # (a loop because the process may have been played and paused again before this coroutine woke up)
+            if self._paused.cancelled():
+                # Found cancelled (a process recreated from a checkpoint written after the task stepping the paused process had
+                # been cancelled, before that task woke up and replaced the future): nobody cancelled this task
+                self._paused = persistence.SavableFuture(loop=self._loop)
             try:
                 await self._paused
             except asyncio.CancelledError:
